@@ -4,9 +4,11 @@
    _pslinux.Process.ionice_set).  C integers are explicit ranges: an expression that
    leaves its type's range is reported as [CUB] (undefined behaviour), never wrapped.
 
-   Parameter [fixed] of some functions: false = the code as it is in /repo now,
-   true = the code after the repair proposed in notes/fixes/ (kept so that the
-   model can follow the code when the repair is committed). *)
+   Parameter [fixed] of the [_gen] functions: true = the code as it is in /repo now (after the
+   repairs e85352e users, a87b45e ionice, 301715a ethtool speed, 0d52d5b disk_partitions);
+   false = the legacy code before them, kept only for the [_refuted] theorems and so that the
+   check can be run against a revert.  The names without [_gen] are the model of record
+   (fixed = true); [_legacy] names are fixed = false. *)
 From PV Require Export Base.Dec.
 
 (* =========================================================== C integer ranges *)
@@ -165,23 +167,32 @@ Inductive cres :=
 Definition cbind {A} (o : outcome A) (k : A -> cres) : cres :=
   match o with Val a => k a | Exc e => CExc e | OutOfModel => CExc RuntimeError end.
 
+(* repaired code: (int)(((unsigned int)ioclass << 13) | (unsigned int)iodata) -- unsigned
+   arithmetic wraps mod 2^32, the conversion back to int is the two's complement value *)
+Definition to_int (u : Z) : Z := let m := u mod 2 ^ 32 in if m <? 2 ^ 31 then m else m - 2 ^ 32.
+Definition ioprio_value_u (ioclass iodata : Z) : Z :=
+  to_int (Z.lor ((ioclass mod 2 ^ 32 * 2 ^ 13) mod 2 ^ 32) (iodata mod 2 ^ 32)).
+
 (* psutil_proc_ioprio_set(pid, ioclass, iodata) *)
-Definition c_ioprio_set (pid ioclass iodata : pyval) : cres :=
+Definition c_ioprio_set_gen (fixed : bool) (pid ioclass iodata : pyval) : cres :=
   cbind (conv_i pid) (fun p =>
   cbind (conv_i ioclass) (fun c =>
   cbind (conv_i iodata) (fun d =>
-  match ioprio_value c d with
-  | Some v => COs "ioprio_set" [p; v] []
-  | None => CUB "shift"
-  end))).
+  if fixed then COs "ioprio_set" [p; ioprio_value_u c d] []
+  else match ioprio_value c d with
+       | Some v => COs "ioprio_set" [p; v] []
+       | None => CUB "shift"
+       end))).
 
 (* _pslinux.Process.ionice_set(ioclass, value), ints only (value None -> 0).
-   fixed = true: ioclass must be one of 0..3 (proposed repair) *)
-Definition ionice_set (fixed : bool) (pid ioclass value : Z) : cres :=
+   fixed = true: ioclass must be one of 0..3 *)
+Definition ionice_set_gen (fixed : bool) (pid ioclass value : Z) : cres :=
   if negb (value =? 0) && ((ioclass =? 3) || (ioclass =? 0)) then CExc ValueError
   else if (value <? 0) || (value >? 7) then CExc ValueError
   else if fixed && negb ((0 <=? ioclass) && (ioclass <=? 3)) then CExc ValueError
-  else c_ioprio_set (PInt pid) (PInt ioclass) (PInt value).
+  else c_ioprio_set_gen fixed (PInt pid) (PInt ioclass) (PInt value).
+Definition ionice_set := ionice_set_gen true.
+Definition ionice_set_legacy := ionice_set_gen false.
 
 (* =========================================================== CPU sets *)
 (* CPU_SET(value, &cpu_set) with value a long and cpu_set_t of 128 bytes (glibc):
@@ -259,7 +270,7 @@ Definition ifreq_call (what : string) (v : pyval) : cres :=
   end).
 
 (* what each METH_VARARGS function does with its argument tuple *)
-Definition c_entry (ep : entry) (args : list pyval) : cres :=
+Definition c_entry_gen (fixed : bool) (ep : entry) (args : list pyval) : cres :=
   match ep, args with
   | EpUsers, _ => COs "getutent" [] []
   | EpSysinfo, _ => COs "sysinfo" [] []
@@ -267,7 +278,7 @@ Definition c_entry (ep : entry) (args : list pyval) : cres :=
   | EpIfAddrs, _ => COs "getifaddrs" [] []
   | EpCheckPid, [v] => match check_pid_range v with Val _ => CNone | Exc e => CExc e | OutOfModel => CExc RuntimeError end
   | EpIoprioGet, [v] => cbind (conv_i v) (fun p => COs "ioprio_get" [p] [])
-  | EpIoprioSet, [p; c; d] => c_ioprio_set p c d
+  | EpIoprioSet, [p; c; d] => c_ioprio_set_gen fixed p c d
   | EpAffGet, [v] => cbind (conv_i v) (fun p => COs "sched_getaffinity" [p] [])
   | EpAffSet, [p; s] => c_affinity_set p s
   | EpDiskPartitions, [v] => cbind (conv_s v) (fun path => COs "setmntent" [] path)
@@ -280,6 +291,8 @@ Definition c_entry (ep : entry) (args : list pyval) : cres :=
   | EpSetPriority, [p; v] => cbind (conv_i p) (fun p' => cbind (conv_i v) (fun n => COs "setpriority" [p'; n] []))
   | _, _ => CExc TypeError      (* wrong number of arguments *)
   end.
+Definition c_entry := c_entry_gen true.
+Definition c_entry_legacy := c_entry_gen false.
 
 (* =========================================================== users() *)
 (* struct utmp on Linux/x86-64 (384 bytes): field widths in order
@@ -314,7 +327,7 @@ Record urow := { u_user : bytes; u_tty : option bytes; u_host : bytes; u_time : 
 
 (* a char[] field handed to PyUnicode_DecodeFSDefault / strcmp.  Code as it is: a C string
    that starts at the field and ends at the first NUL of the *record* ([after] = the bytes
-   of the record behind the field).  fixed = true: cut at the field width. *)
+   of the record behind the field) -- legacy.  fixed = true (strnlen): cut at the field width. *)
 Definition field_cstr (fixed : bool) (field after : bytes) : option bytes :=
   if fixed then Some (cut_nul field) else c_str (field ++ after).
 
@@ -361,8 +374,10 @@ Fixpoint users_records (fixed : bool) (recs : list bytes) : mem (list urow) :=
   end.
 
 (* psutil.users() over the content of the utmp file *)
-Definition users (fixed : bool) (file : bytes) : mem (list urow) :=
+Definition users_gen (fixed : bool) (file : bytes) : mem (list urow) :=
   users_records fixed (chunks (length file) UTMP_SIZE file).
+Definition users := users_gen true.
+Definition users_legacy := users_gen false.
 
 (* =========================================================== disk_partitions() *)
 (* ---- glibc getmntent() over the text of the mounts file (static 4096-byte line buffer) *)
@@ -468,7 +483,7 @@ Fixpoint utf8_valid (l : bytes) : bool :=
   end.
 
 (* psutil_disk_partitions: device and mount point decoded with the filesystem encoding
-   (surrogateescape, total); type and options with strict UTF-8 ("s"), unless fixed *)
+   (surrogateescape, total); legacy: type and options with strict UTF-8 ("s"); fixed: all four alike *)
 Fixpoint c_disk_partitions (fixed : bool) (es : list ment) : outcome (list ment) :=
   match es with
   | [] => Val []
@@ -514,16 +529,18 @@ Fixpoint partitions_loop (all : bool) (fstypes : list bytes) (es : list ment) : 
       else Val ({| m_dev := device; m_dir := m_dir e; m_type := m_type e; m_opts := m_opts e |} :: rest)
   end.
 
-Definition disk_partitions (fixed : bool) (all : bool) (filesystems mounts : bytes) : outcome (list ment) :=
+Definition disk_partitions_gen (fixed : bool) (all : bool) (filesystems mounts : bytes) : outcome (list ment) :=
   do fstypes <- (if all then Val [] else read_fstypes filesystems);
   do es <- getmntent_all mounts;
   do rows <- c_disk_partitions fixed es;
   partitions_loop all fstypes rows.
+Definition disk_partitions := disk_partitions_gen true.
+Definition disk_partitions_legacy := disk_partitions_gen false.
 
 (* =========================================================== net_if_duplex_speed *)
 (* psutil_ethtool_cmd_speed: (ecmd->speed_hi << 16) | ecmd->speed.  Both operands are __u16
    promoted to int, so the shift is undefined from speed_hi = 0x8000 on (SPEED_UNKNOWN has
-   speed_hi = 0xFFFF).  fixed = true: ((__u32)ecmd->speed_hi << 16) | ecmd->speed *)
+   speed_hi = 0xFFFF) -- legacy.  fixed = true: ((uint32_t)ecmd->speed_hi << 16) | ecmd->speed *)
 Definition ethtool_speed (fixed : bool) (speed_hi speed : Z) : option Z :=
   if fixed then Some (Z.lor (speed_hi * 2 ^ 16) speed)
   else match shl_int speed_hi 16 with
@@ -531,12 +548,14 @@ Definition ethtool_speed (fixed : bool) (speed_hi speed : Z) : option Z :=
        | None => None
        end.
 (* uint_speed = (__u32) of that; SPEED_UNKNOWN (0xFFFFFFFF) or > INT_MAX gives 0 *)
-Definition nic_speed (fixed : bool) (speed_hi speed : Z) : option Z :=
+Definition nic_speed_gen (fixed : bool) (speed_hi speed : Z) : option Z :=
   match ethtool_speed fixed speed_hi speed with
   | None => None
   | Some v => let u := v mod 2 ^ 32 in
               Some (if (u =? 2 ^ 32 - 1) || (u >? INT_MAX) then 0 else u)
   end.
+Definition nic_speed := nic_speed_gen true.
+Definition nic_speed_legacy := nic_speed_gen false.
 (* _pslinux.net_if_stats: duplex_map[duplex] over DUPLEX_HALF=0, DUPLEX_FULL=1, DUPLEX_UNKNOWN=0xff
    -> NIC_DUPLEX_HALF=1, NIC_DUPLEX_FULL=2, NIC_DUPLEX_UNKNOWN=0 *)
 Definition duplex_map (d : Z) : outcome Z :=
